@@ -290,6 +290,9 @@ enum ExtOp {
     InPlace,
     JsonInPlace,
     Shape,
+    /// an entry point driven through a HINT-HONOURING (`arg = honour`) or always-owned
+    /// (`arg = owned`) deserializer over the payload: value, provenance and the hint called
+    Hint,
 }
 
 impl ExtOp {
@@ -300,9 +303,12 @@ impl ExtOp {
             ExtOp::InPlace => "in_place",
             ExtOp::JsonInPlace => "json_in_place",
             ExtOp::Shape => "shape",
+            ExtOp::Hint => "hint",
         }
     }
 }
+
+const HINT_MODES: [&str; 2] = ["honour", "owned"];
 
 const READ_ADVS: [&str; 7] = ["chunk1", "chunk2", "chunk3", "chunk7", "intr1", "intr3", "over"];
 const WRITE_ADVS: [&str; 8] = ["accept1", "accept2", "accept5", "accept8", "intr3", "fixed_short1", "fixed3", "slice_short1"];
@@ -340,9 +346,9 @@ impl Case {
                         format!("in_place {} {} {arg} {ob} {} {}{h}", kind.name(), be.name(), hex(old), hex(data))
                     }
                     ExtOp::JsonInPlace => format!("json_in_place {} {} {ob} {} {}", kind.name(), be.name(), hex(old), hex(data)),
-                    ExtOp::Shape => {
+                    ExtOp::Shape | ExtOp::Hint => {
                         let e = Entry { kind: *kind, borrowing: *borrowing };
-                        format!("shape {} {} {arg} {}", e.name(), be.name(), hex(data))
+                        format!("{} {} {} {arg} {}", op.name(), e.name(), be.name(), hex(data))
                     }
                 }
             }
@@ -402,6 +408,23 @@ impl Case {
                 old_borrowed: *ob == "bor",
                 data: unhex(h)?,
             }),
+            ["hint", en, be, mode, h] => {
+                let e = Entry::parse(en)?;
+                if !HINT_MODES.contains(mode) {
+                    return None;
+                }
+                Some(Case::Ext {
+                    op: ExtOp::Hint,
+                    kind: e.kind,
+                    borrowing: e.borrowing,
+                    be: Be::parse(be)?,
+                    arg: mode.to_string(),
+                    hint: None,
+                    old: vec![],
+                    old_borrowed: false,
+                    data: unhex(h)?,
+                })
+            }
             ["shape", en, be, sh, h] => {
                 let e = Entry::parse(en)?;
                 if !SHAPES.contains(sh) {
@@ -556,7 +579,7 @@ impl Case {
                         ExtOp::BorshIoDe | ExtOp::BorshIoSer => matches!(kind, K::Byt | K::Str),
                         ExtOp::InPlace => arg != "char" || one_char(data),
                         ExtOp::Shape => arg != "char" || one_char(data),
-                        ExtOp::JsonInPlace => true,
+                        ExtOp::JsonInPlace | ExtOp::Hint => true,
                     }
             }
             _ => true,
@@ -1971,6 +1994,172 @@ fn shape_std(kind: K, shape: &str, data: &[u8]) -> String {
 }
 
 // ---------------------------------------------------------------------------------------------
+// Round 3: hint-honouring / always-owned deserializers (bincode-like) and provenance
+// ---------------------------------------------------------------------------------------------
+
+/// A deserializer over one byte string that, like bincode 1.x, does what the HINT says:
+/// `honour`: `deserialize_bytes` lends the input (`visit_borrowed_bytes`), `deserialize_byte_buf`
+/// hands out a fresh `Vec`, `deserialize_str` lends (`visit_borrowed_str`), `deserialize_string`
+/// hands out a fresh `String`; `owned`: every hint gets a fresh buffer.  `deserialize_seq`
+/// presents the bytes as a sequence of `u8` (what `Vec<u8>` asks for); `deserialize_any` and
+/// every other method fail (the format is not self-describing).  The first method called is
+/// logged.
+struct HintDe<'de, 'l> {
+    data: &'de [u8],
+    lend: bool,
+    log: &'l std::cell::Cell<&'static str>,
+}
+
+impl HintDe<'_, '_> {
+    fn note(&self, m: &'static str) {
+        if self.log.get().is_empty() {
+            self.log.set(m);
+        }
+    }
+}
+
+macro_rules! hint_refuse {
+    ($($name:ident),*) => {
+        $(fn $name<V: Visitor<'de>>(self, _v: V) -> Result<V::Value, OcErr> {
+            self.note(stringify!($name));
+            Err(OcErr(ErrClass::Custom))
+        })*
+    };
+}
+
+impl<'de> Deserializer<'de> for HintDe<'de, '_> {
+    type Error = OcErr;
+
+    fn deserialize_bytes<V: Visitor<'de>>(self, v: V) -> Result<V::Value, OcErr> {
+        self.note("deserialize_bytes");
+        if self.lend { v.visit_borrowed_bytes(self.data) } else { v.visit_byte_buf(self.data.to_vec()) }
+    }
+    fn deserialize_byte_buf<V: Visitor<'de>>(self, v: V) -> Result<V::Value, OcErr> {
+        self.note("deserialize_byte_buf");
+        v.visit_byte_buf(self.data.to_vec())
+    }
+    fn deserialize_str<V: Visitor<'de>>(self, v: V) -> Result<V::Value, OcErr> {
+        self.note("deserialize_str");
+        // like bincode, the format itself refuses bytes that are not UTF-8 where a string is due
+        let s = std::str::from_utf8(self.data).map_err(|_| OcErr(ErrClass::InvalidValue))?;
+        if self.lend { v.visit_borrowed_str(s) } else { v.visit_string(s.to_string()) }
+    }
+    fn deserialize_string<V: Visitor<'de>>(self, v: V) -> Result<V::Value, OcErr> {
+        self.note("deserialize_string");
+        let s = std::str::from_utf8(self.data).map_err(|_| OcErr(ErrClass::InvalidValue))?;
+        v.visit_string(s.to_string())
+    }
+    fn deserialize_seq<V: Visitor<'de>>(self, v: V) -> Result<V::Value, OcErr> {
+        self.note("deserialize_seq");
+        v.visit_seq(SeqAcc { data: self.data, pos: 0, bad: false, hint: Some(self.data.len()) })
+    }
+    fn deserialize_unit_struct<V: Visitor<'de>>(self, _n: &'static str, _v: V) -> Result<V::Value, OcErr> {
+        self.note("deserialize_unit_struct");
+        Err(OcErr(ErrClass::Custom))
+    }
+    fn deserialize_newtype_struct<V: Visitor<'de>>(self, _n: &'static str, _v: V) -> Result<V::Value, OcErr> {
+        self.note("deserialize_newtype_struct");
+        Err(OcErr(ErrClass::Custom))
+    }
+    fn deserialize_tuple<V: Visitor<'de>>(self, _l: usize, _v: V) -> Result<V::Value, OcErr> {
+        self.note("deserialize_tuple");
+        Err(OcErr(ErrClass::Custom))
+    }
+    fn deserialize_tuple_struct<V: Visitor<'de>>(self, _n: &'static str, _l: usize, _v: V) -> Result<V::Value, OcErr> {
+        self.note("deserialize_tuple_struct");
+        Err(OcErr(ErrClass::Custom))
+    }
+    fn deserialize_struct<V: Visitor<'de>>(self, _n: &'static str, _f: &'static [&'static str], _v: V) -> Result<V::Value, OcErr> {
+        self.note("deserialize_struct");
+        Err(OcErr(ErrClass::Custom))
+    }
+    fn deserialize_enum<V: Visitor<'de>>(self, _n: &'static str, _f: &'static [&'static str], _v: V) -> Result<V::Value, OcErr> {
+        self.note("deserialize_enum");
+        Err(OcErr(ErrClass::Custom))
+    }
+    hint_refuse! {
+        deserialize_any, deserialize_bool, deserialize_i8, deserialize_i16, deserialize_i32, deserialize_i64,
+        deserialize_i128, deserialize_u8, deserialize_u16, deserialize_u32, deserialize_u64, deserialize_u128,
+        deserialize_f32, deserialize_f64, deserialize_char, deserialize_option, deserialize_unit, deserialize_map,
+        deserialize_identifier, deserialize_ignored_any
+    }
+}
+
+/// `ok <hex> borrowed=<b> inside=<0|1> hint=<method>` | `err <class> hint=<method>`:
+/// `inside` = the value's bytes lie inside the input buffer (pointer identity for a borrow).
+fn hint_impl<'a, H: Hip<'a>>(borrowing: bool, mode: &str, data: &'a [u8]) -> Obs {
+    let log = std::cell::Cell::new("");
+    let d = HintDe { data, lend: mode == "honour", log: &log };
+    let (r, maxalloc) = measure(|| if borrowing { H::de_borrow(d).expect("entry exists") } else { H::de(d) });
+    let line = match r {
+        Ok(h) => {
+            let mon = h.monitor();
+            let c = h.content();
+            let p = h.ptr() as usize;
+            let lo = data.as_ptr() as usize;
+            let inside = !c.is_empty() && p >= lo && p + c.len() <= lo + data.len();
+            let mut s = format!("ok {} borrowed={} inside={}{}{mon}", hex(&c), h.borrowed() as u8, inside as u8, utf8_monitor(H::KIND, &c));
+            if matches!(H::KIND, K::Path) && std::str::from_utf8(&c).is_err() {
+                s.push_str(" !utf8");
+            }
+            // a value that claims to borrow must be the caller's exact memory, and vice versa
+            if !c.is_empty() && h.borrowed() != inside {
+                s.push_str(" !provenance");
+            }
+            s
+        }
+        Err(e) => format!("err {}", e.0.name()),
+    };
+    // `hint=` is what the table speaks about (the exact method for a borrowing entry point, the
+    // family for an owned one), `called=` the method actually logged
+    let called = log.get();
+    let entry = Entry { kind: H::KIND, borrowing };
+    Obs { line: format!("{line} hint={} called={called}", hint_class(entry, called)), maxalloc }
+}
+
+/// The hint as the table sees it: exact for borrowing entry points, the family for owned ones.
+fn hint_class(entry: Entry, called: &str) -> String {
+    if entry.borrowing {
+        return called.to_string();
+    }
+    match (entry.kind, called) {
+        (K::Byt, "deserialize_bytes" | "deserialize_byte_buf") => "bytes-family".into(),
+        (K::Str | K::Path, "deserialize_str" | "deserialize_string") => "str-family".into(),
+        (K::Os, "deserialize_enum") => "std-os-string".into(),
+        _ => called.to_string(),
+    }
+}
+
+/// The hint table: the borrowing entry points must ask for the borrowable form; the owned ones
+/// for a form of their family.
+fn expected_hint(entry: Entry) -> &'static str {
+    match (entry.kind, entry.borrowing) {
+        (K::Byt, true) => "deserialize_bytes",
+        (K::Str | K::Path, true) => "deserialize_str",
+        (K::Byt, false) => "bytes-family",
+        (K::Str | K::Path, false) => "str-family",
+        (K::Os, _) => "std-os-string",
+    }
+}
+
+/// Std twin through the same deserializer + the provenance rule: `borrow_deserialize` through a
+/// hint-honouring format returns the input's own memory (`borrowed=1 inside=1`), everything
+/// else an owned copy.
+fn hint_std(entry: Entry, mode: &str, data: &[u8]) -> String {
+    let log = std::cell::Cell::new("");
+    let twin = StdVal::de(entry.kind, HintDe { data, lend: mode == "honour", log: &log });
+    let want = expected_hint(entry);
+    match twin {
+        Ok(v) => {
+            let lent = entry.borrowing && mode == "honour" && !v.content().is_empty();
+            let b = entry.borrowing && mode == "honour";
+            format!("ok {} borrowed={} inside={} hint={want}", hex(&v.content()), b as u8, lent as u8)
+        }
+        Err(e) => format!("err {} hint={want}", e.0.name()),
+    }
+}
+
+// ---------------------------------------------------------------------------------------------
 // Running one case on the implementation / the oracle
 // ---------------------------------------------------------------------------------------------
 
@@ -2000,6 +2189,7 @@ fn run_impl_raw(case: &Case) -> Obs {
             }
             ExtOp::JsonInPlace => dispatch!(*kind, *be, json_in_place_impl(data, old, *old_borrowed)),
             ExtOp::Shape => dispatch!(*kind, *be, shape_impl(*borrowing, arg, data)),
+            ExtOp::Hint => dispatch!(*kind, *be, hint_impl(*borrowing, arg, data)),
         },
     }
 }
@@ -2088,6 +2278,7 @@ fn run_oracle(case: &Case) -> String {
                 }
                 fresh
             }
+            ExtOp::Hint => hint_std(Entry { kind: *kind, borrowing: *borrowing }, arg, data),
             ExtOp::Shape => {
                 // HipByt asks for a byte string: its twin is the probe with the same hint (the
                 // value deserializers answer `deserialize_seq` and `deserialize_bytes` differently,
@@ -2131,6 +2322,10 @@ fn lean_query(case: &Case) -> Option<String> {
         Case::Ext { op: ExtOp::InPlace, kind, arg, hint, data, .. } if *kind != K::Os => {
             let h = hint.map(|h| format!(" {h}")).unwrap_or_default();
             Some(format!("visit {}_owned {arg} {}{h}", kind.name(), hex(data)))
+        }
+        // the generated table's hint for the entry point
+        Case::Ext { op: ExtOp::Hint, kind, borrowing, .. } => {
+            Some(format!("hint {}", Entry { kind: *kind, borrowing: *borrowing }.name()))
         }
         // the value deserializers that make exactly one of the modelled visitor calls
         Case::Ext { op: ExtOp::Shape, kind, borrowing, arg, data, .. } if *kind != K::Os => {
@@ -2250,7 +2445,7 @@ fn outcome_class(case: &Case, line: &str) -> String {
             let l = line.split(" value:").next().unwrap_or(line);
             if l.starts_with("slice:ok") { borrowed(l).to_string() } else { "err".into() }
         }
-        Case::Visit { .. } | Case::Bstr { .. } | Case::Ext { op: ExtOp::Shape, .. } => {
+        Case::Visit { .. } | Case::Bstr { .. } | Case::Ext { op: ExtOp::Shape | ExtOp::Hint, .. } => {
             if first == "ok" {
                 borrowed(line).to_string()
             } else {
@@ -2347,7 +2542,7 @@ impl Ctx {
             Case::BorshDe { .. }
                 | Case::Visit { .. }
                 | Case::Bstr { .. }
-                | Case::Ext { op: ExtOp::InPlace | ExtOp::Shape | ExtOp::BorshIoDe | ExtOp::JsonInPlace, .. }
+                | Case::Ext { op: ExtOp::InPlace | ExtOp::Shape | ExtOp::BorshIoDe | ExtOp::JsonInPlace | ExtOp::Hint, .. }
         );
         let n = match case {
             // the whole stream (two copies of the value) / the old value count as supplied input
@@ -2363,14 +2558,31 @@ impl Ctx {
             );
         }
         // std oracle
-        let impl_cmp = obs.line.clone();
+        let impl_cmp = if matches!(case, Case::Ext { op: ExtOp::Hint, .. }) {
+            strip_field(&obs.line, "called=")
+        } else {
+            obs.line.clone()
+        };
         if impl_cmp != oracle {
             dis("impl-vs-oracle", oracle.clone(), impl_cmp);
         }
         // Lean model
         if with_model {
             if let Some(q) = lean_query(case) {
-                if let Some(model) = self.ask_lean(&q) {
+                let answer = self.ask_lean(&q);
+                let is_hint = matches!(case, Case::Ext { op: ExtOp::Hint, .. });
+                if let (true, Some(model)) = (is_hint, answer.clone()) {
+                    // the hint the generated table records must be the one actually called
+                    let called = obs.line.split(' ').find_map(|w| w.strip_prefix("called=")).unwrap_or("").to_string();
+                    if model != "none" && model != called {
+                        out.push(Dis {
+                            kind: "impl-vs-model",
+                            input: vec![case.line()],
+                            expected: format!("table: {model}"),
+                            observed: format!("called: {called}"),
+                        });
+                    }
+                } else if let (false, Some(model)) = (is_hint, answer) {
                     let mut model_line = strip_field(&strip_field(&model, "maxreq="), "reserve=");
                     if matches!(case, Case::Ext { op: ExtOp::InPlace, .. }) {
                         model_line = strip_field(&model_line, "borrowed=");
@@ -2456,7 +2668,9 @@ impl Ctx {
                     d.drain(pos..end);
                     let cand = best.with_data(d);
                     budget -= 1;
-                    if cand.well_formed() {
+                    // provenance needs a non-empty payload: do not shrink a hint case to nothing
+                    let keep = !(matches!(cand, Case::Ext { op: ExtOp::Hint, .. }) && cand.data().is_empty());
+                    if keep && cand.well_formed() {
                         let r = self.check_once(&cand, with_model);
                         if r.iter().any(|x| x.kind == kind) {
                             best = cand;
@@ -2986,6 +3200,40 @@ fn run_all(ctx: &mut Ctx, tier: &str, seed: u64, report: &mut Vec<Dis>) {
                             },
                             true,
                         );
+                    }
+                }
+            }
+        }
+    }
+    // ---- round 3: hint-honouring and always-owned deserializers, provenance and hint table ----
+    {
+        let mut hv: Vec<Vec<u8>> = [1usize, 5, 23, 24, 48, 4097].iter().map(|&l| (0..l).map(|i| b'a' + (i % 26) as u8).collect()).collect();
+        hv.push(vec![]);
+        hv.push(fill("é", 30));
+        hv.push(b"\xff\xfe".to_vec());
+        hv.push((0..40).map(|i| 0x80 | i as u8).collect());
+        for kind in [K::Byt, K::Str, K::Path, K::Os] {
+            for entry in entries_of(kind) {
+                for be in BACKENDS {
+                    for mode in HINT_MODES {
+                        for v in &hv {
+                            emit(
+                                ctx,
+                                report,
+                                Case::Ext {
+                                    op: ExtOp::Hint,
+                                    kind,
+                                    borrowing: entry.borrowing,
+                                    be,
+                                    arg: mode.to_string(),
+                                    hint: None,
+                                    old: vec![],
+                                    old_borrowed: false,
+                                    data: v.clone(),
+                                },
+                                true,
+                            );
+                        }
                     }
                 }
             }
